@@ -794,3 +794,58 @@ func ruleWtxnBlocks(c *Ctx, r *Reporter) {
 		}
 	}
 }
+
+func init() {
+	register(&Rule{
+		ID: "LOCK-PAIR", Props: []string{"C10"}, Floor: 8,
+		Doc: "every mutex acquired by library code is released on every non-panicking path to the function's exit (an explicit Unlock on the path, or a deferred Unlock registered while held)",
+		Run: ruleLockPair,
+	})
+}
+
+func ruleLockPair(c *Ctx, r *Reporter) {
+	n := 0
+	for _, fn := range c.Funcs {
+		if fn.Package() == nil {
+			continue
+		}
+		if pk := shortPkg(fn.Package().Pkg.Path()); strings.HasPrefix(pk, "reconciler/") {
+			continue
+		}
+		ord := 0
+		for _, ia := range allInstrs(fn) {
+			call, ok := ia.In.(ssa.CallInstruction)
+			if !ok {
+				continue
+			}
+			if _, isDefer := ia.In.(*ssa.Defer); isDefer {
+				continue
+			}
+			cl, acq, ok := c.lockClassOfCall(call)
+			if !ok || !acq || cl == classTables || cl == "internal.sortableMutex.Mutex" {
+				// table locks are paired across functions (TXN-PAIR, ABORT-PURE, COMMIT-ORDER);
+				// sortableMutex.Lock is the acquiring wrapper itself
+				continue
+			}
+			n++
+			ord++
+			key := fmt.Sprintf("%s|%s#%d released on all exits", c.fnName(fn), cl, ord)
+			leak := reachesReturnAvoiding(ia.In, func(in ssa.Instruction) bool {
+				c2, ok := in.(ssa.CallInstruction)
+				if !ok {
+					return false
+				}
+				cl2, acq2, ok := c.lockClassOfCall(c2)
+				return ok && !acq2 && cl2 == cl // explicit or deferred unlock of the same class
+			}, nil)
+			if leak == nil {
+				r.ok(key, c.posStr(instrPos(ia.In)), "every path from the Lock to a return passes an Unlock (or a defer of it)")
+			} else {
+				r.bad(key, c.posStr(instrPos(leak)), "a path returns with "+cl+" still held: every later acquirer (commit, registration, metrics reader) blocks forever")
+			}
+		}
+	}
+	if n < 8 {
+		r.undecided("locks", "-", fmt.Sprintf("expected at least 8 mutex acquisitions in library code, found %d", n))
+	}
+}
